@@ -112,3 +112,33 @@ func sameState(a, b map[string][]byte) bool {
 }
 
 type treasureT = treasure.Treasure
+
+// encodeTreasure returns the bytes the engine stores for an entry (gob-encoded treasure).
+func encodeTreasure(e entryStep) []byte {
+	tr := mkTreasure(e.key, e.content, e.del)
+	g := tr.StartTreasureGuard(true, guard.BodyAuthID)
+	defer tr.ReleaseTreasureGuard(g)
+	b, err := tr.ConvertToByte(g)
+	if err != nil {
+		return nil
+	}
+	return b
+}
+
+// contentOf decodes stored entry bytes back to the byte-array content.
+func contentOf(data []byte) []byte {
+	if len(data) == 0 {
+		return nil
+	}
+	tr := treasure.New(nil)
+	g := tr.StartTreasureGuard(true, guard.BodyAuthID)
+	defer tr.ReleaseTreasureGuard(g)
+	if err := tr.LoadFromByte(g, data, "x"); err != nil {
+		return nil
+	}
+	v, err := tr.GetContentByteArray()
+	if err != nil {
+		return nil
+	}
+	return v
+}
